@@ -465,6 +465,18 @@ def all_updated_rules(ctx):
     rs = {norm(t): norm(s.value) for s in walk_own(cr.node) if isinstance(s, ast.Assign) for t in s.targets}
     ctx.inst('R2', cr, 'new-session-resets-values', rs.get('self.values') == '{}' and rs.get('self.is_updated') == 'False' and rs.get('self.toc') == 'Toc()',
              'a new connection attempt starts with an empty value table, is_updated False and an empty TOC; resets %s' % rs)
+    # ... and the session that ends drops them at once: a value packet the dispatcher still holds when the link goes down finds no
+    # element in the emptied TOC and is ignored - with the old table kept it would complete the download and announce
+    # fully_connected after disconnected
+    dc = P.method('_disconnected')
+    gd = cfg_of(dc)
+    drops = {}
+    for n in gd.nodes:
+        if n.kind == 'stmt' and isinstance(n.ast, ast.Assign) and not gd.fact_keys_at(n) and ('n', n.id) in (gd.dom().get(('n', gd.exit.id)) or ()):
+            for t in n.ast.targets:
+                drops[norm(t)] = norm(n.ast.value)
+    ctx.inst('R2', dc, 'ended-session-drops-table-and-values', drops.get('self.toc') == 'Toc()' and drops.get('self.values') in ('{}', 'dict()'),
+             'on disconnect the parameter TOC and the value table are replaced by empty ones, unconditionally; found %s' % {k: v for k, v in drops.items() if k in ('self.toc', 'self.values')})
 
 
 def session_hygiene_rules(ctx):
